@@ -22,7 +22,10 @@ META = {
         'order in which the work-list met the workbooks; (refs) both load '
         'paths (workbook and dictionary) resolve defined names on the nodes '
         'their references added and compile the cells against that complete '
-        'table.'),
+        'table; (bounds) every comparison between row bounds is made on '
+        'numbers, not on the digit strings the parts carry, and sizes/index '
+        'ranges are inclusive - the tests that decide which cells a range is '
+        'wired to.'),
     'not_decided': (
         'That each formula cell holds the value of its formula (the fixed '
         'point), range/blank wiring and equality of the two load paths.'),
@@ -231,6 +234,15 @@ SCOPE = ['formulas/excel/__init__.py', 'formulas/cell.py', 'formulas/ranges.py',
          'formulas/builder.py', 'formulas/excel/cycle.py']
 
 
+def _bounds(ctx, prop):
+    """Range containment/intersection tests decide which cells a range node
+    gets its values from: the inclusive-bounds rule of C06 (rows compared as
+    numbers, sizes add one, ...) is a necessary condition here too."""
+    from .c06 import rule_inclusive
+    from .c09 import _retag
+    return _retag(rule_inclusive(ctx), prop, prop + '.bounds')
+
+
 def _refs(ctx):
     from .c09 import rule_refs, _retag
     return _retag(rule_refs(ctx), 'C03', 'C03.refs')
@@ -245,5 +257,5 @@ def run(ctx):
     return [rule_ord(ctx, funcs, prop='C03', rule='C03.ord', floor=5),
             rule_pair(ctx),
             rule_snapshot(ctx, 'C03', 'C03.snapshot'),
-            _refs(ctx),
+            _refs(ctx), _bounds(ctx, 'C03'),
             rule_cachekey(ctx, 'C03', 'C03.cachekey', SCOPE)]
